@@ -29,7 +29,8 @@ for wt in sorted(glob.glob('/tmp/wt/[BR]*')):
                 pass
             n = int(re.sub(r'\D', '', item) or 1)
             if pid is None or (props and pid not in props):
-                pid = props[0 if n <= 2 else 1] if props else None
+                half = max(len(glob.glob(wt + "/_out/change*")) // 2, 1)
+                pid = props[0 if n <= half else 1] if props else None
             if pid:
                 jobs.append(['/venv/bin/python', '/verif/tools/intake_seed.py', pid, d, '--name', sid])
         else:
